@@ -10,7 +10,10 @@ import NumbersModel.Gen.TrA1
 import NumbersModel.Gen.TrItems
 import NumbersModel.Gen.TrNumFmt
 import NumbersModel.Gen.TrAddr
+import NumbersModel.Gen.TrDateFmt
+import NumbersModel.Gen.TrDuration
 import NumbersModel.Drv.Addressing
+import NumbersModel.Model.DateFmt
 
 open NumbersModel NumbersModel.Drv NumbersModel.Gen.T
 
@@ -66,6 +69,45 @@ def handleTrAddr : List String → Option String
     pure (showPyM showGrid ((iter_cols_bounds rows cols c d a b).map Addressing.colsOf))
   | _ => none
 
+/-- same request lines as `Drv/DateFmt.lean` (`fmt`, `expand`), plus the three directive helpers called directly:
+    `doy <tm_yday>`, `wom <day> <weekday of the 1st>`, `occ <day>` -/
+def handleTrDateFmt : List String → Option String
+  | ["fmt", y, mo, d, h, mi, s, us, f] => do
+    let ns ← [y, mo, d, h, mi, s, us].mapM String.toNat?
+    let f ← parseText f
+    match ns with
+    | [y, mo, d, h, mi, s, us] =>
+      pure (showPyM showText (decode_date_format (DateFmt.isAlphaIn Gen.alphaRanges)
+        (DateFmt.decodeField ⟨y, mo, d, h, mi, s, us⟩) f))
+    | _ => none
+  | ["expand", s] => do
+    let s ← parseText s
+    pure (showPyM showText (expand_quotes s))
+  | ["doy", yd] => do
+    let yd ← yd.toInt?
+    pure (showPyM (fun (i : Int) => s!"{i}") (day_of_year yd))
+  | ["wom", d, w] => do
+    let d ← d.toInt?; let w ← w.toInt?
+    pure (showPyM (fun (i : Int) => s!"{i}") (week_of_month d w))
+  | ["occ", d] => do
+    let d ← d.toInt?
+    pure (showPyM showText (days_occurred_in_month d))
+  | _ => none
+
+/-- `units <ms> <largest> <smallest>` as in `Drv/Duration.lean`; `unitfmt <unit> <value> <style> (n | s <abbrev>)` -/
+def handleTrDuration : List String → Option String
+  | ["units", ms, largest, smallest] => do
+    let ms ← ms.toInt?; let largest ← largest.toInt?; let smallest ← smallest.toInt?
+    pure (showPyM (fun (p : Int × Int) => s!"{p.1} {p.2}") (auto_units ⟨ms⟩ largest smallest))
+  | "unitfmt" :: u :: v :: st :: rest => do
+    let u ← parseText u; let v ← v.toInt?; let st ← st.toInt?
+    let ab ← match rest with
+      | ["n"] => some none
+      | ["s", a] => (parseText a).map some
+      | _ => none
+    pure (showPyM showText (unit_format u v st ab))
+  | _ => none
+
 def trDispatch (line : String) : String :=
   let ws := (line.splitOn " ").filter (· ≠ "")
   let r : Option String := match ws with
@@ -73,6 +115,8 @@ def trDispatch (line : String) : String :=
     | "items" :: rest => handleTrItems rest
     | "numfmt" :: rest => handleTrNumFmt rest
     | "addr" :: rest => handleTrAddr rest
+    | "datefmt" :: rest => handleTrDateFmt rest
+    | "dur" :: rest => handleTrDuration rest
     | _ => none
   match r with
   | some s => s
